@@ -309,7 +309,66 @@ fn new_vm(case: &Case) -> Vm {
     for (name, value) in &case.globals {
         vm.set_global("main", name, Value::Number(*value));
     }
+    if case.opts.get("hostclasses").map(|s| s == "1").unwrap_or(false) {
+        define_host_classes(&mut vm);
+    }
     vm
+}
+
+// A class hierarchy declared by the embedding program through the public API, with native methods:
+//   HAnimal              speak -> "...",   legs -> 4, kind -> "animal"
+//     HBird (HAnimal)    speak -> "tweet", legs -> 2
+//       HParrot (HBird)  speak -> "hello"
+// and one instance of each as globals hgeneric / htweety / hpolly.
+fn hs(vm: &mut Vm, text: &str) -> Result<Value, Error> {
+    Ok(Value::ObjString(vm.new_gc_obj_string(text)))
+}
+fn h_animal_speak(vm: &mut Vm, _n: usize) -> Result<Value, Error> { hs(vm, "...") }
+fn h_animal_legs(_vm: &mut Vm, _n: usize) -> Result<Value, Error> { Ok(Value::Number(4.0)) }
+fn h_animal_kind(vm: &mut Vm, _n: usize) -> Result<Value, Error> { hs(vm, "animal") }
+fn h_bird_speak(vm: &mut Vm, _n: usize) -> Result<Value, Error> { hs(vm, "tweet") }
+fn h_bird_legs(_vm: &mut Vm, _n: usize) -> Result<Value, Error> { Ok(Value::Number(2.0)) }
+fn h_parrot_speak(vm: &mut Vm, _n: usize) -> Result<Value, Error> { hs(vm, "hello") }
+
+fn declare_host_class(
+    vm: &mut Vm,
+    name: &str,
+    metaclass: yarel::memory::Gc<yarel::object::ObjClass>,
+    superclass: yarel::memory::Gc<yarel::object::ObjClass>,
+    defs: &[(&str, yarel::object::NativeFn)],
+    keep: &mut Vec<yarel::memory::Root<yarel::object::ObjNative>>,
+) -> yarel::memory::Root<yarel::object::ObjClass> {
+    let mut methods = yarel::object::new_obj_string_value_map();
+    for (method_name, function) in defs {
+        let method_name = vm.new_gc_obj_string(method_name);
+        let native = vm.new_root_obj_native(method_name, *function);
+        methods.insert(method_name, Value::ObjNative(native.as_gc()));
+        keep.push(native);
+    }
+    let name = vm.new_gc_obj_string(name);
+    vm.new_root_obj_class(name, metaclass, Some(superclass), methods)
+}
+
+fn define_host_classes(vm: &mut Vm) {
+    use yarel::object::NativeFn;
+    let type_class = vm.global("main", "Type").unwrap().try_as_obj_class().unwrap();
+    let object_class = vm.global("main", "Object").unwrap().try_as_obj_class().unwrap();
+    let mut keep = Vec::new();
+    let animal = declare_host_class(vm, "HAnimal", type_class, object_class,
+        &[("speak", h_animal_speak as NativeFn), ("legs", h_animal_legs as NativeFn), ("kind", h_animal_kind as NativeFn)], &mut keep);
+    let bird = declare_host_class(vm, "HBird", type_class, animal.as_gc(),
+        &[("speak", h_bird_speak as NativeFn), ("legs", h_bird_legs as NativeFn)], &mut keep);
+    let parrot = declare_host_class(vm, "HParrot", type_class, bird.as_gc(),
+        &[("speak", h_parrot_speak as NativeFn)], &mut keep);
+    let polly = vm.new_root_obj_instance(parrot.as_gc());
+    let tweety = vm.new_root_obj_instance(bird.as_gc());
+    let generic = vm.new_root_obj_instance(animal.as_gc());
+    vm.set_global("main", "HAnimal", Value::ObjClass(animal.as_gc()));
+    vm.set_global("main", "HBird", Value::ObjClass(bird.as_gc()));
+    vm.set_global("main", "HParrot", Value::ObjClass(parrot.as_gc()));
+    vm.set_global("main", "hpolly", Value::ObjInstance(polly.as_gc()));
+    vm.set_global("main", "htweety", Value::ObjInstance(tweety.as_gc()));
+    vm.set_global("main", "hgeneric", Value::ObjInstance(generic.as_gc()));
 }
 
 fn define_natives(vm: &mut Vm) {
